@@ -426,7 +426,7 @@ Proof.
   pose proof (peak_bound cf cands P1 (tlow st) R1 Hw HB) as Hpk.
   assert (Hml : maxlow st <= Z.of_nat (length B)).
   { rewrite Hm. rewrite HB. rewrite app_length. cbn [length]. rewrite Nat2Z.inj_add, Nat2Z.inj_succ.
-    pose proof (cntZ_le_length P1). lia. }
+    assert (cntZ P1 <= Z.of_nat (length P1)) by apply cntZ_le_length. lia. }
   rewrite wrap64_small in Hmaj
     by (unfold M64; change (2 ^ 62) with 4611686018427387904 in HL2; lia).
   exists (tlow st). cbv zeta.
